@@ -696,6 +696,8 @@ def __sx_call__(f, *a, **k):
             return sx_int_from_bytes(*a, **k)
         if slf is bytes and name == "fromhex":
             return sx_fromhex(*a, **k)
+        if name == "join" and isinstance(slf, (str, bytes)) and len(a) == 1 and not isinstance(a[0], (list, tuple)):
+            a = (list(a[0]),)          # generators: materialise before looking for symbolic parts
         if isinstance(slf, str):
             if any_sym(a, k):
                 return _str_method(slf, name, a, k)
